@@ -42,7 +42,7 @@ def c06(c):
              "for stores/loads/arguments/results on the model backends; oracle = 128-bit integer comparison with the limits of "
              "the destination type. Sources of <=16 bits (quick) / <=32 bits (thorough) are enumerated completely per pair "
              "(counted by the loop counters, no repetition by construction); sampled pairs contribute one fingerprint per "
-             "(pair, oracle branch). Non-trivial = the oracle prescribes an outcome (always, for integers).",
+             "(pair, oracle branch). Non-trivial = the oracle prescribes an outcome (always, for integers). Compound stores (0 += v, 0 |= v on the sandbox cell) are judged like plain stores.",
         exhaustive=False,
         exhaustive_subspaces=["all source values of every ordered pair with a source type of <=16 bits (quick) / <=32 bits (thorough)"],
         assumptions=["two's-complement host; flag-mode abort capture continues after a failed dynamic_check (leaf computation has no side effects)",
@@ -254,7 +254,7 @@ def c17(c):
              "8- and 16-bit index types are enumerated completely; wider ones get -1, N, N+-1, type limits and 2^k+i aliases of every valid i. "
              "Distinct = (location, holder, index type, wrapper) combinations swept. Plus c17_optcopy in g++ -O2, g++ -O3 and clang -O2 builds without "
              "sanitizer: snapshot/copy/opaque round trip of sandbox arrays of six element types, then every element read (written) through operator[] "
-             "must be the array's element.",
+             "must be the array's element. The holder families also run on the WIDE and NARROW models; index cells holding guest values that are not values of the application's index type must abort (forked children).",
         exhaustive=False,
         exhaustive_subspaces=["all values of every 8- and 16-bit index type for every holder and location"],
         assumptions=["ILP32 model backend; guest layout from independently declared fixed-width structs"]))
@@ -304,7 +304,7 @@ def c20(c):
              "must show identical values; (c) sandbox_static_cast for all 15x15 arithmetic/enum pairs from tainted and from sandbox-resident "
              "tainted_volatile sources against the C++ cast (only where the C++ cast is defined); (d) sandbox_reinterpret/const/static_cast on "
              "pointers: designated address unchanged, null preserved, source cell unchanged; (e) optimised uninstrumented builds (g++ -O2, g++ -O3, "
-             "clang -O2): arrays through to_opaque/from_opaque in an application struct, then indexed. Distinct = (kind, type or type pair, source wrapper).",
+             "clang -O2): arrays through to_opaque/from_opaque in an application struct, then indexed. Distinct = (kind, type or type pair, source wrapper). sandbox_static_cast between class pointers of a multiple-inheritance hierarchy in both directions at both edges of the region; set_zero on every non-enum opaque value.",
         exhaustive=False,
         exhaustive_subspaces=["all bit patterns of 8- and 16-bit types for the opaque round trip and as static_cast sources (sub-sampled above 3000 values per pair)"],
         assumptions=["model backend ILP32 (quick) plus NARROW and WIDE (thorough)"]))
@@ -343,7 +343,7 @@ def c04(c):
              "assign_raw_pointer); oracle = base of the owning instance + offset, guest side observed in raw memory / guest event log / backend "
              "free log; offset 0 <-> null on every path. Per round one instance gets ALL offsets 1..65535 through cell load/store and the "
              "context path. MASK and FINDER translation styles, ILP32 / WIDE / HOST ABIs; the two ILP32 configurations "
-             "additionally with 4 GiB regions (first MiB and last page committed) and offsets around 2^31 and up to 2^32-1. FINDER and WIDE repeated with RLBOX_ENABLE_DEBUG_ASSERTIONS (same verdicts required).",
+             "additionally with 4 GiB regions (first MiB and last page committed) and offsets around 2^31 and up to 2^32-1. FINDER and WIDE repeated with RLBOX_ENABLE_DEBUG_ASSERTIONS (same verdicts required). Two further to-application positions: UNSAFE_unverified / unverified_safe_because applied directly to a sandbox-resident struct.",
         exhaustive=False,
         exhaustive_subspaces=["all 65535 non-null offsets of the 64 KiB region through load-cell, store-cell and UNSAFE_sandboxed, for one instance per round"],
         assumptions=["offset 0 is the null representation (the first byte of the region is never handed out as an object)"]))
@@ -476,6 +476,9 @@ def c10(c):
         units.append(dict(name="c10_clang", srcs=[D + "c10_bulk.cpp"], build="clang-asan",
                           defs=EXC + ["CFG=vsbx_ilp32", "RLBOX_USE_STATIC_CALLS()=rlbox_noop_sandbox_lookup_symbol"]))
         runs += [dict(unit="c10_clang", label="c10_clang[p%d]" % p, args=[p], count_distinct=False) for p in range(6)]
+    # the copy path of copy_memory_or_grant_access with a hostile allocator answer (block that starts inside and ends outside)
+    units.append(dict(name="c10_alloc", srcs=[D + "c10_alloc.cpp"], build="asan", defs=EXC))
+    runs.append(dict(unit="c10_alloc", label="c10_alloc[ilp32m,unconfined]"))
     # size operands wider than size_t (GNU dialect: __int128)
     units.append(dict(name="c10_wideint", srcs=[D + "c10_wideint.cpp"], build="asan", defs=EXC, flags=["-std=gnu++17"]))
     runs.append(dict(unit="c10_wideint", label="c10_wideint[gnu++17]"))
@@ -493,7 +496,7 @@ def c10(c):
              "wholly outside every region): illegal => abort / allocation failure; legal => no abort and exactly the specified effect (region "
              "byte diff, memcmp sign, delivered content); everything outside the given ranges is ASan-poisoned during the call; empty requests are "
              "not judged except that they must not write. Where host and guest element sizes differ the oracle requires abort only if illegal "
-             "under both readings and success only if legal under both. copy_and_verify_range is additionally judged by element semantics on the WIDE and NARROW models (char, short, char16_t, char32_t, wchar_t, long, double; source in the interior and flush against the end of the region): the verifier receives exactly the count elements held.",
+             "under both readings and success only if legal under both. copy_and_verify_range is additionally judged by element semantics on the WIDE and NARROW models (char, short, char16_t, char32_t, wchar_t, long, double; source in the interior and flush against the end of the region): the verifier receives exactly the count elements held. c10_alloc: hostile allocator answers at every distance 0..n*size+2 from the end of the region for char, short, char16_t, wchar_t, float, double (1 and 3 elements) on the copy path of copy_memory_or_grant_access. c10_wideint: __int128 / unsigned __int128 size operands of memset/memcpy/memcmp (GNU dialect).",
         exhaustive=False,
         assumptions=["overlapping source/destination inside the sandbox is not driven (std::memcpy semantics undefined)"]))
 
@@ -533,7 +536,7 @@ def c13(c):
              "expected abort ends a history. Random: histories of 60 (quick) / 300 (thorough) steps with pools smaller than, nearly as large as and "
              "larger than the entry-point table, plus capacity accounting probes (the backend must accept exactly capacity-minus-live more "
              "registrations) and a complete fill of the table. Backends: model (8 entry points), noop and dylib (64). "
-             "distinct_nontrivial = replayed exhaustive sequences + distinct random histories. Concurrent histories on one noop sandbox (c13_concurrent): 2..8 threads register, duplicate-register, unregister, destroy and overwrite owners of disjoint function sets with PRNG yields after every lock acquisition/release; per-thread single-threaded oracle on own functions, whole-set registrability oracle at barriers; TSan, ASan, plain builds; schedules sampled, contended acquisitions counted.",
+             "distinct_nontrivial = replayed exhaustive sequences + distinct random histories. Concurrent histories on one noop sandbox (c13_concurrent): 2..8 threads register, duplicate-register, unregister, destroy and overwrite owners of disjoint function sets with PRNG yields after every lock acquisition/release; per-thread single-threaded oracle on own functions, whole-set registrability oracle at barriers; TSan, ASan, plain builds; schedules sampled, contended acquisitions counted. A refused registration does not end a history.",
         exhaustive=False,
         exhaustive_subspaces=["all operation sequences of length 3 (quick) / 4 (thorough) over 2 functions and 3 owners, per backend"],
         assumptions=["owners whose sandbox incarnation was destroyed are not judged, only that unregistering/destroying them is harmless",
@@ -569,7 +572,7 @@ def c14(c):
              "destroyed, application) region exactly as the model does. Exhaustive: all sequences of length 4 (quick) / 5 (thorough) on 2 objects "
              "and length 3 / 4 on 3 objects; random histories beyond; dylib backend: create/destroy/invoke over two shared objects exporting the "
              "same names (each call first in a forked child). After a failed creation both outcomes of a retry are accepted. "
-             "Invocation/app-pointer/translation outside the lifetime window are not driven. Histories that end after main() (c14_teardown): owners with static storage duration (global, function-local static) and atexit handlers, constructed/registered before the library's first use, destroy their sandbox during process shutdown in forked children that leave through exit(); the owner's destructor judges the created-state rules and the parent requires a clean exit.",
+             "Invocation/app-pointer/translation outside the lifetime window are not driven. Histories that end after main() (c14_teardown): owners with static storage duration (global, function-local static) and atexit handlers, constructed/registered before the library's first use, destroy their sandbox during process shutdown in forked children that leave through exit(); the owner's destructor judges the created-state rules and the parent requires a clean exit. A refused registration does not end a history; free_in_sandbox rotates through its three overloads.",
         exhaustive=False,
         exhaustive_subspaces=["all operation sequences of length 4 (quick) / 5 (thorough) over 11 operations x 2 sandbox objects, and of length 3 / 4 over 3 objects"],
         assumptions=["an expected abort ends the history"]))
@@ -740,7 +743,7 @@ def c11(c):
              "abort when an argument is unrepresentable; the tainted result must equal the reference conversion of what the guest returned (abort if "
              "unrepresentable); the sandbox function address taken before/after invocation must be the backend's table representation and invocation "
              "must never go through the internal-representation stub. Backends: model ILP32 and WIDE by name, noop through the static-call path, dylib over two "
-             "shared objects built at check time (interleaved instances, re-creation over the other library, function addresses against an independent dlsym). The by-value struct has a long, a char, a pointer and a two-element pointer-array field; every generated group contains one signature taking two structs and returning one.",
+             "shared objects built at check time (interleaved instances, re-creation over the other library, function addresses against an independent dlsym). The by-value struct has a long, a char, a pointer and a two-element pointer-array field; every generated group contains one signature taking two structs and returning one. c11_macros: the four public spellings of a call on model, dylib (dynamic lookup) and noop (static calls) with an entry point renamed by an object-like macro; the dylib history calls a function that uses an exported helper of its own library.",
         exhaustive=False,
         assumptions=["arguments have the parameter's own type (the statement's precondition)"]))
 
@@ -770,7 +773,7 @@ def c09(c):
              "fundamental (direct and through a sandbox-resident pointer), pointer to struct, volatile struct, volatile array, copy_and_verify_range "
              "(char, long), copy_and_verify_string (both verifier flavours; empty, length 1, 12, 40, terminator in the last byte of the region), "
              "copy_and_verify_address, copy_and_verify_buffer_address, copy_memory_or_deny_access. Plus a real adversary thread toggling a string "
-             "between two lengths during 20 000 (quick) / 1 000 000 (thorough) calls. An abort is always an acceptable outcome.",
+             "between two lengths during 20 000 (quick) / 1 000 000 (thorough) calls. An abort is always an acceptable outcome. bool cells (value, pointer, range of 4, array of 4) with actions flip / 0xFF / zero: a byte that is not 0 or 1 has no decoding.",
         exhaustive=False,
         exhaustive_subspaces=["every interleave point (each individual access to sandbox memory) of every variant x content, for each single adversary action"],
         assumptions=["single adversary actions are enumerated over every access; sequences of two actions at two accesses are sampled (24 / 400 per variant), longer sequences not driven", "ILP32 model backend (plus the WIDE model for narrowing loads); x86-64 trap flag single-stepping"]))
@@ -808,6 +811,13 @@ def c18(c):
         for nt in ([4, 8] if not c.thorough else [2, 4, 8, 16]):
             for rep in range(2 if not c.thorough else 4):
                 runs.append(dict(unit="c18_tsan_embtls", label="c18_tsan_embtls[%s,%dthr,rep%d]" % (bn, nt, rep), args=[b, nt, 200 + rep], env=guest_env(c), timeout=1800))
+    # the debug configuration (RLBOX_ENABLE_DEBUG_ASSERTIONS) with yields at every lock boundary: an assertion that holds for a
+    # thread running alone must hold while other threads create and destroy THEIR sandboxes (the registry walk of the FINDER model
+    # passes over entries in every lifecycle state)
+    units.append(dict(name="c18_dbgassert_lockwrap", srcs=[D + "c18_threads.cpp"], build="plain1", defs=EXC + ["C18_LOCK_WRAPPER", "RLBOX_ENABLE_DEBUG_ASSERTIONS"], libs=["-ldl"], needs=["libguest1.so", "libguest2.so"]))
+    for nt in ([8] if not c.thorough else [4, 8, 16]):
+        for rep in range(2 if not c.thorough else 4):
+            runs.append(dict(unit="c18_dbgassert_lockwrap", label="c18_dbgassert[model,%dthr,rep%d]" % (nt, rep), args=[0, nt, 400 + rep], env=guest_env(c), timeout=1800))
     for unit in ("c18_tsan", "c18_tsan_lockwrap"):
         for b, bn in enumerate(["model", "noop", "dylib"]):
             for nt in threads:
@@ -827,7 +837,7 @@ def c18(c):
              "function, invocation reached own library). Monitor state is per thread and merged after join. The second build routes RLBox's lock "
              "macros (RLBOX_USE_CUSTOM_SHARED_LOCK) through a thin wrapper around std::shared_timed_mutex that injects PRNG yields/sleeps before "
              "acquire and after release and counts contended acquisitions. distinct_nontrivial counts distinct (backend, threads, seed) executions "
-             "and their operation totals; schedules are sampled, not enumerated. Hand-over phase per run: sandboxes created by the main thread are used and destroyed by workers and vice versa (one user at a time, start/join order the hand-over).",
+             "and their operation totals; schedules are sampled, not enumerated. Hand-over phase per run: sandboxes created by the main thread are used and destroyed by workers and vice versa (one user at a time, start/join order the hand-over). Debug-configuration unit (RLBOX_ENABLE_DEBUG_ASSERTIONS, lock wrapper, model backend, 8 threads).",
         exhaustive=False,
         assumptions=["same-sandbox use from several threads is outside the statement and not driven",
                      "ThreadSanitizer only sees races on accesses that happen; the uninstrumented guest .so is outside its view"]))
